@@ -728,7 +728,9 @@ def check_requests(ctx, luts, store, store_json, reqs, info, label, model=None):
                 want = spec_query(store, q) if kinds_ok else None
                 inp = {"history": hist, "t0_utc_ms": t0, "requests": [q]}
                 if info.get("mid"):
-                    inp["mid"] = info["mid"]
+                    # earlier stages of the scenario; of a long stage only the requests equal to this one
+                    inp["mid"] = [m if len(m["requests"]) <= 60 else dict(m, requests=[r for r in m["requests"] if r == q])
+                                  for m in info["mid"]]
                 got = {}
                 for be in ("Dictionary", "TinyDB"):
                     code, data = impl_request(luts[be], q)
